@@ -103,6 +103,14 @@ def r3_empty(cx):
         ok = ("result", True) in g and ("any((l for l in result))", True) in g
     cx.require(ok, res_ret[0] if res_ret else cc, "the cleaned list is returned only when some line is truthy; otherwise [] is returned",
                construct="if result and any(l for l in result): ... return result ; return []")
+    for r in [x for x in walk_body(cc.body) if isinstance(x, ast.Return) and enclosing_function(x) is cc]:
+        t = U(r.value)
+        if t in ("result", "[]"):
+            continue
+        if t == "_clean_line(%s)" % params(cc)[1] and ("isinstance(%s, list)" % params(cc)[1], False) in guard_texts(r):
+            cx.ok(r, "a single string is cleaned as one line", construct=short(r))
+            continue
+        cx.bad(r, "every list returned by clean_content went through the line loop and the all-blank collapse (an early return of the input bypasses both)", construct=short(r) + " guarded by %s" % sorted(guard_texts(r)))
     sf = cx.repo.module(SF)
     f = sf.func("ContentProvider._clean_content", "C10.R3")
     rs = [r for r in walk_body(f.body) if isinstance(r, ast.Raise) and "ContentException" in U(r.exc)]
